@@ -63,6 +63,8 @@ pub enum Act {
     Sunset { b: usize },
     /// the risk admin purges a lender's balance in a sunset bank
     Purge { u: usize, b: usize },
+    /// the authority closes its whole marginfi account (marginfi_account_close)
+    CloseAccount { u: usize },
 }
 
 fn fx(v: marginfi_type_crate::types::WrappedI80F48) -> i128 {
@@ -105,6 +107,13 @@ impl Scen {
                 _ => (TokenKind::Spl, 9),
             };
             let mint = w.add_mint(kind, dec);
+            // a third of the fee-bearing mints have a fee change scheduled (to zero, or to another rate) that is not yet in
+            // force: the old fee keeps being charged
+            if let TokenKind::T22Fee { max_fee, .. } = kind {
+                if rng.chance(1, 3) {
+                    w.schedule_fee_change(&mint, *rng.pick(&[0u16, 0, 7, 2500]), max_fee, 2 + rng.below(3));
+                }
+            }
             let price = *rng.pick(&[1i128, 10, 100, 2]) * ONE + rng.below(ONE as u64) as i128;
             let mut cfg = bank_config_fixed(I80F48::from_bits(price));
             // random valid curve + fees
@@ -210,6 +219,7 @@ impl Scen {
             14..=16 => Act::Repay { u, b, amt, all: rng.chance(1, 5) },
             17 => Act::Accrue { b },
             18 => Act::CollectFees { b },
+            19 if rng.chance(1, 4) => Act::CloseAccount { u },
             19 if rng.chance(1, 2) => Act::Retag { b, tag: rng.below(2) as u8 },
             19 if rng.chance(1, 3) => {
                 let sunset = self.w.bank(&self.banks[b].bank).flags & marginfi_type_crate::constants::TOKENLESS_REPAYMENTS_COMPLETE != 0;
@@ -219,7 +229,7 @@ impl Scen {
         }
     }
 
-    fn position_amount(&self, u: usize, b: usize) -> u64 {
+    pub fn position_amount(&self, u: usize, b: usize) -> u64 {
         let a = self.w.marginfi_account(&self.users[u].acct);
         let bank = self.w.bank(&self.banks[b].bank);
         match a.lending_account.get_balance(&self.banks[b].bank) {
@@ -269,6 +279,10 @@ impl Scen {
                 ix::close_balance(&self.banks[*b], us.acct, us.wallet)
             }
             Act::Sunset { .. } => return None,
+            Act::CloseAccount { u } => {
+                let us = &self.users[*u];
+                ix::close_account(us.acct, us.wallet, us.wallet)
+            }
             Act::Purge { u, b } => {
                 use anchor_lang::{InstructionData, ToAccountMetas};
                 let h = &self.banks[*b];
@@ -321,6 +335,38 @@ impl Scen {
                 if self.w.bank(&h.bank) != expect {
                     rep.fail(format!("C12 flagging bank {} for token-less repayments changed more than the two flags; hist {:?}", b, self.hist));
                 }
+            }
+            return Some(r);
+        }
+        if let Act::CloseAccount { u } = act {
+            let us_acct = self.users[*u].acct;
+            let pre = self.w.marginfi_account(&us_acct);
+            let ixn = self.instruction(act)?;
+            let r = self.w.exec(&ixn);
+            self.hist.push(format!("{:?}->{}", act, match &r { Ok(()) => "ok".to_string(), Err(e) => format!("{}", e) }));
+            if r.is_ok() {
+                rep.bump("ok_CloseAccount");
+                // C02 / C16: the positions that disappear with the account must be dust on BOTH sides (the bank totals are
+                // not touched by the closure), and the account must not have been disabled / in a bracket
+                for bal in pre.lending_account.balances.iter().filter(|b| b.is_active()) {
+                    if fx(bal.asset_shares) >= ONE || fx(bal.liability_shares) >= ONE {
+                        rep.fail(format!(
+                            "C02 an account was closed while it held a position of {} asset / {} liability shares: the bank totals keep shares that no position backs; hist {:?}",
+                            fx(bal.asset_shares), fx(bal.liability_shares), self.hist
+                        ));
+                        rep.fail(format!("C16 an account that is not empty was closed; hist {:?}", self.hist));
+                    }
+                    // what is abandoned stays in the totals: account for it like closed-balance dust
+                    if let Some(bi) = self.banks.iter().position(|h| h.bank == bal.bank_pk) {
+                        self.dust_a[bi] += big(fx(bal.asset_shares));
+                        self.dust_l[bi] += big(fx(bal.liability_shares));
+                    }
+                }
+                // the user goes on with a fresh account
+                let wallet = self.users[*u].wallet;
+                let acct = self.w.add_marginfi_account(self.group, wallet);
+                self.users[*u].acct = acct;
+                self.opened_tag.retain(|k, _| k.0 != us_acct);
             }
             return Some(r);
         }
@@ -429,6 +475,17 @@ impl Scen {
                 let g = self.w.group(&self.group);
                 crate::world::install_stubs();
                 if expect.accrue_interest(now, &g, h.bank).is_ok() {
+                    // program fees are zero when disabled for the group: the accrual of the pre-state (the real function, on
+                    // the real group) must not book any (a borrow's origination fee is not accrual and is not judged here)
+                    {
+                        use marginfi::state::marginfi_group::MarginfiGroupImpl;
+                        if !g.program_fees_enabled() && fx(expect.collected_program_fees_outstanding) != fx(pre.collected_program_fees_outstanding) {
+                            rep.fail(format!(
+                                "C06 accrual books program fees ({} -> {}) on bank {} although program fees are disabled for the group (before {:?}); hist {:?}",
+                                fx(pre.collected_program_fees_outstanding), fx(expect.collected_program_fees_outstanding), bi, act, self.hist
+                            ));
+                        }
+                    }
                     let zero_upto = matches!(act, Act::Deposit { upto: true, .. }) && fx(post.total_asset_shares) == fx(pre.total_asset_shares);
                     if !zero_upto && (fx(expect.asset_share_value) != fx(post.asset_share_value) || fx(expect.liability_share_value) != fx(post.liability_share_value)) {
                         rep.fail(format!(
@@ -498,7 +555,12 @@ impl Scen {
                         }
                     }
                     Act::Borrow { .. } => {
-                        if post.config.borrow_limit != u64::MAX && tot_l >= BigInt::from(post.config.borrow_limit) * &one {
+                        // a borrow that adds no debt shares (amount 0) is a no-op and is not judged: interest alone may carry
+                        // the debt past the limit, which blocks every borrow that adds to it
+                        if post.config.borrow_limit != u64::MAX
+                            && fx(post.total_liability_shares) > fx(pre.total_liability_shares)
+                            && tot_l >= BigInt::from(post.config.borrow_limit) * &one
+                        {
                             rep.fail(format!("C17 debt {} >= borrow limit {} after a successful borrow; hist {:?}", tot_l, post.config.borrow_limit, self.hist));
                         }
                         if tot_a < tot_l {
@@ -615,6 +677,35 @@ pub fn run(rng: &mut Rng, n: usize, rep: &mut Report) {
             s.step(&act, rep);
             done += 1;
             rep.bump("cases");
+        }
+        // ---- closing whole accounts at the end of the scenario, on clones: as they are, and with the collateral wiped
+        //      (what a price collapse followed by liquidations leaves behind: debt-only accounts)
+        for u in 0..s.users.len() {
+            for wipe in [false, true] {
+                let mut w2 = s.w.clone();
+                let key = s.users[u].acct;
+                let mut a = w2.marginfi_account(&key);
+                if wipe {
+                    for bal in a.lending_account.balances.iter_mut().filter(|b| b.is_active()) {
+                        bal.asset_shares = I80F48::ZERO.into();
+                    }
+                    w2.set_marginfi_account(&key, &a);
+                }
+                let r = w2.exec(&ix::close_account(key, s.users[u].wallet, s.users[u].wallet));
+                rep.bump(if r.is_ok() { "end_close_ok" } else { "end_close_refused" });
+                if r.is_ok() {
+                    for bal in a.lending_account.balances.iter().filter(|b| b.is_active()) {
+                        if fx(bal.asset_shares) >= ONE || fx(bal.liability_shares) >= ONE {
+                            rep.fail(format!(
+                                "C02 an account was closed while it held a position of {} asset / {} liability shares (the bank totals keep shares that no position backs){}; hist {:?}",
+                                fx(bal.asset_shares), fx(bal.liability_shares), if wipe { " [collateral wiped by state edit]" } else { "" }, s.hist
+                            ));
+                            rep.fail(format!("C16 an account that is not empty was closed; hist {:?}", s.hist));
+                            break;
+                        }
+                    }
+                }
+            }
         }
         rep.bump("scenarios");
         rep.sample(format!("{:?}", s.hist.iter().rev().take(8).collect::<Vec<_>>()));
